@@ -17,6 +17,23 @@ from ._utilities import export
 
 
 @export
+def _stored_knots(obj, param, tol=10e-8):
+    """ Replaces the parameters identified with an existing knot by the stored value of that knot.
+
+    ``helpers.find_multiplicity`` identifies a parameter with the knots closer than its tolerance, whereas the knot span
+    is found by exact comparison. Stored knots may differ from the input parameter in the last digits (knot vectors are
+    rounded during normalization), so the stored value is used for both.
+    """
+    kvs = [obj.knotvector] if obj.pdimension == 1 else obj.knotvector
+    ret = list(param)
+    for idx, (par, kv) in enumerate(zip(param, kvs)):
+        if par is not None:
+            same = [k for k in kv if abs(par - k) <= tol]
+            if same:
+                ret[idx] = min(same, key=lambda k: abs(par - k))
+    return ret
+
+
 def insert_knot(obj, param, num, **kwargs):
     """ Inserts knots n-times to a spline geometry.
 
@@ -66,6 +83,9 @@ def insert_knot(obj, param, num, **kwargs):
             if val < 0:
                 raise GeomdlException('Number of insertions must be a positive integer value',
                                       data=dict(idx=idx, num=val))
+
+    # Knots are identified up to a tolerance: work with the stored value of an existing knot
+    param = _stored_knots(obj, param)
 
     # Start curve knot insertion
     if isinstance(obj, abstract.Curve):
@@ -339,6 +359,9 @@ def remove_knot(obj, param, num, **kwargs):
             if val < 0:
                 raise GeomdlException('Number of removals must be a positive integer value',
                                       data=dict(idx=idx, num=val))
+
+    # Knots are identified up to a tolerance: work with the stored value of an existing knot
+    param = _stored_knots(obj, param)
 
     # Start curve knot removal
     if isinstance(obj, abstract.Curve):
